@@ -12,9 +12,10 @@ Ghost components (none of them is read by the model; they only record history):
   modelled; a dead core takes no further steps)
 -/
 import KcpVerif.Lemmas.KcpRecv
+import KcpVerif.Lemmas.KcpSend
 
 namespace KcpVerif.C01
-open KcpVerif KcpVerif.Gen KcpVerif.Kcp KcpVerif.Frame KcpVerif.Recv
+open KcpVerif KcpVerif.Gen KcpVerif.Kcp KcpVerif.Frame KcpVerif.Recv KcpVerif.Send KcpVerif.Wire
 
 inductive Op where
   | send (buf : Bytes)
@@ -35,11 +36,6 @@ structure GSt where
   accM : List Bytes := []
   wire : List Bytes := []
   dead : Bool := false
-
-/-- contents of the segments that left `snd_queue` between `k` and `k'` (an operation that admits
-segments removes a prefix of the queue and appends nothing) -/
-def admitted (k k' : Kcp) : List Content :=
-  (k.snd_queue.take (k.snd_queue.length - k'.snd_queue.length)).map content
 
 /-- the bytes of `buffer` that `Send` really puts into the queue: all of it on success; in stream
 mode the part appended to the last segment even when the call then fails with −2 (see notes/C01.md:
@@ -243,5 +239,135 @@ theorem run_invRG {G : U32 → Content} {sn0 conv : U32} (ops : List Op) :
 
 theorem fresh_invRG (G : U32 → Content) (k : Kcp) (hf : Fresh k) : InvRG G k.rcv_nxt k.conv { k := k } 0 :=
   ⟨⟨by simp, by simp [hf.rq, gRange], by rw [hf.rb]; exact BufOk.nil _ _⟩, rfl, rfl⟩
+
+/-! ### the send-side invariant on ghost states -/
+
+theorem recv_sndSame (k : Kcp) (buflen : Nat) : SndSame k (recv k buflen).k := by
+  by_cases h1 : k.peekSize < 0
+  · rw [recv_fail1 _ _ h1]; exact SndSame.refl _
+  · by_cases h2 : k.peekSize > (buflen : Int)
+    · rw [recv_fail2 _ _ h1 h2]; exact SndSame.refl _
+    · rw [recv_ok _ _ h1 h2]; unfold recvK; simp only []
+      split <;> exact ⟨rfl, rfl, rfl, rfl, rfl, rfl, rfl⟩
+
+/-- the four send-side fields -/
+structure SndQ (k k' : Kcp) : Prop where
+  snd_una   : k'.snd_una = k.snd_una
+  snd_nxt   : k'.snd_nxt = k.snd_nxt
+  snd_queue : k'.snd_queue = k.snd_queue
+  snd_buf   : k'.snd_buf = k.snd_buf
+
+theorem SndQ.trans {a b c : Kcp} (h1 : SndQ a b) (h2 : SndQ b c) : SndQ a c :=
+  ⟨h2.snd_una.trans h1.snd_una, h2.snd_nxt.trans h1.snd_nxt, h2.snd_queue.trans h1.snd_queue,
+   h2.snd_buf.trans h1.snd_buf⟩
+
+theorem setMtu_sndQ (k : Kcp) (mtu : Int) : SndQ k (setMtu k mtu).1 := by
+  unfold setMtu
+  split
+  · exact ⟨rfl, rfl, rfl, rfl⟩
+  · split
+    · exact ⟨rfl, rfl, rfl, rfl⟩
+    · split
+      · exact ⟨rfl, rfl, rfl, rfl⟩
+      · split <;> exact ⟨rfl, rfl, rfl, rfl⟩
+
+theorem noDelay_sndQ (k : Kcp) (a b c d : Int) : SndQ k (noDelay k a b c d) := by
+  have h1 : ∀ k : Kcp, SndQ k (if a ≥ 0 then
+      { k with nodelay := BitVec.ofInt 32 a,
+               rx_minrto := if a ≠ 0 then u32 IKCP_RTO_NDL else u32 IKCP_RTO_MIN } else k) := by
+    intro k; split <;> exact ⟨rfl, rfl, rfl, rfl⟩
+  have h2 : ∀ k : Kcp, SndQ k (if b ≥ 0 then
+      { k with interval := BitVec.ofInt 32 (if b > 5000 then 5000 else if b < 10 then 10 else b) } else k) := by
+    intro k; split <;> exact ⟨rfl, rfl, rfl, rfl⟩
+  have h3 : ∀ k : Kcp, SndQ k (if c ≥ 0 then { k with fastresend := BitVec.ofInt 32 c } else k) := by
+    intro k; split <;> exact ⟨rfl, rfl, rfl, rfl⟩
+  have h4 : ∀ k : Kcp, SndQ k (if d ≥ 0 then { k with nocwnd := BitVec.ofInt 32 d } else k) := by
+    intro k; split <;> exact ⟨rfl, rfl, rfl, rfl⟩
+  exact (((h1 k).trans (h2 _)).trans (h3 _)).trans (h4 _)
+
+theorem wndSize_sndQ (k : Kcp) (a b : Int) : SndQ k (wndSize k a b) := by
+  have h1 : ∀ k : Kcp, SndQ k (if a > 0 then { k with snd_wnd := BitVec.ofInt 32 a } else k) := by
+    intro k; split <;> exact ⟨rfl, rfl, rfl, rfl⟩
+  have h2 : ∀ k : Kcp, SndQ k (if b > 0 then { k with rcv_wnd := BitVec.ofInt 32 b } else k) := by
+    intro k; split <;> exact ⟨rfl, rfl, rfl, rfl⟩
+  exact (h1 k).trans (h2 _)
+
+/-- the log is consistent with the core, and everything emitted so far is made of frames whose PUSH
+members carry the logged content of their sequence number (for every content function `G` that
+agrees with the log) -/
+structure InvSG (sn0 : U32) (s : GSt) : Prop where
+  inv  : InvS sn0 s.k s.log
+  wire : ∀ G, Agree G sn0 s.log → ∀ o ∈ s.wire, Framed G o
+
+theorem step_invSG {sn0 : U32} {s : GSt} (h : InvSG sn0 s) (op : Op) :
+    InvSG sn0 (step s op) ∧ ∃ X, (step s op).log = s.log ++ X := by
+  have flushLike : ∀ (k' : Kcp) (outs : List Bytes),
+      (InvS sn0 k' (s.log ++ admitted s.k k') ∧
+        ∀ G, Agree G sn0 (s.log ++ admitted s.k k') → ∀ o ∈ outs, Framed G o) →
+      InvSG sn0 { s with k := k', log := s.log ++ admitted s.k k', wire := s.wire ++ outs } ∧
+        ∃ X, s.log ++ admitted s.k k' = s.log ++ X := by
+    intro k' outs hh
+    refine ⟨⟨hh.1, fun G hG o ho => ?_⟩, _, rfl⟩
+    rcases List.mem_append.mp ho with h1 | h1
+    · exact h.wire G hG.prefix o h1
+    · exact hh.2 G hG o h1
+  have same : ∀ k' : Kcp, SndQ s.k k' → InvSG sn0 { s with k := k' } ∧ ∃ X, s.log = s.log ++ X := by
+    intro k' hq
+    exact ⟨⟨h.inv.congr hq.snd_nxt hq.snd_una hq.snd_buf hq.snd_queue, h.wire⟩, [], by simp⟩
+  unfold step
+  by_cases hd : s.dead = true
+  · rw [if_pos hd]; exact ⟨h, [], by simp⟩
+  · rw [if_neg hd]
+    cases op with
+    | send buf =>
+      simp only []
+      split
+      · exact ⟨⟨h.inv, h.wire⟩, [], by simp⟩
+      · rename_i hp
+        exact ⟨⟨send_invS h.inv buf (by simpa using hp), h.wire⟩, [], by simp⟩
+    | recv buflen =>
+      simp only []
+      split
+      · exact ⟨h, [], by simp⟩
+      · exact ⟨⟨h.inv.same (recv_sndSame _ _), h.wire⟩, [], by simp⟩
+    | input data regular ackNoDelay now =>
+      simp only []
+      split
+      · exact ⟨⟨h.inv, h.wire⟩, [], by simp⟩
+      · rename_i hp
+        have hi := input_invS h.inv data regular ackNoDelay now
+        exact flushLike _ _ ⟨hi.1, fun G hG => hi.2 G hG (by simpa using hp)⟩
+    | flush full now =>
+      simp only []
+      split
+      · exact ⟨⟨h.inv, h.wire⟩, [], by simp⟩
+      · rename_i hp
+        have hi := flush_invS h.inv full now
+        exact flushLike _ _ ⟨hi.1, fun G hG => hi.2 G hG (by simpa using hp)⟩
+    | update now =>
+      simp only []
+      split
+      · exact ⟨⟨h.inv, h.wire⟩, [], by simp⟩
+      · rename_i hp
+        have hi := update_invS h.inv now
+        exact flushLike _ _ ⟨hi.1, fun G hG => hi.2 G hG (by simpa using hp)⟩
+    | setMtu mtu => exact same _ (setMtu_sndQ _ _)
+    | noDelay a b c d => exact same _ (noDelay_sndQ _ _ _ _ _)
+    | wndSize a b => exact same _ (wndSize_sndQ _ _ _)
+
+theorem run_invSG {sn0 : U32} (ops : List Op) :
+    ∀ (s : GSt), InvSG sn0 s → InvSG sn0 (run s ops) ∧ ∃ X, (run s ops).log = s.log ++ X := by
+  induction ops with
+  | nil => intro s h; exact ⟨h, [], by simp [run]⟩
+  | cons op rest ih =>
+    intro s h
+    obtain ⟨h1, X1, e1⟩ := step_invSG h op
+    obtain ⟨h2, X2, e2⟩ := ih (step s op) h1
+    refine ⟨h2, X1 ++ X2, ?_⟩
+    show (run (step s op) rest).log = _
+    rw [e2, e1, List.append_assoc]
+
+theorem fresh_invSG (k : Kcp) (hf : Fresh k) : InvSG k.snd_nxt { k := k } :=
+  ⟨InvS.fresh k hf.sq hf.sb hf.su, fun _ _ o ho => by cases ho⟩
 
 end KcpVerif.C01
